@@ -38,6 +38,8 @@ def oracle(cases, obs, light=False):
                 taint = k
             if o["err"] == "RecursionError":
                 fails.append((i, k, "assignment raised RecursionError (chain of dependants too long)")); break
+            if o["err"] is None and o["oracle"].get("defn"):
+                fails.append((i, k, "the definition of the assigned location is not what was assigned: " + o["oracle"]["defn"])); break
             if o["err"] is None and o["oracle"].get("inconsistent"):
                 if taint is None:
                     fails.append((i, k, "a location defined by an expression does not hold the value of its expression: "
@@ -124,7 +126,7 @@ def run(ctx):
             fails.append((len(cases), len(c["ops"]) - 1, f"end of a chain of {len(c['ops'])-1} dependants holds {got}, expected {want}"))
     # value TYPES beyond small integers (floats incl. nan/inf, numpy scalars and arrays, complex, huge ints, strings, None):
     # outside the Coq model's domain, judged by the pull-model oracle on the error-free prefix of each history
-    mixed = [mc.gen_history(ctx.rng, ["assign", "assign_flat"][i % 2], nops=ctx.rng.randint(4, 20), values="mixed") for i in range(ctx.pick(100, 2000))]
+    mixed = [mc.gen_history(ctx.rng, ["assign", "assign_flat"][i % 2], nops=ctx.rng.randint(4, 20), values="mixed", literals=True) for i in range(ctx.pick(100, 2000))]
     pc, po = mc.error_free_prefix(mixed, mc.run_impl_cases(mixed))
     mf, _ = oracle(pc, po)
     fails += [(len(cases) + len(big) + i, k, w) for i, k, w in mf]
